@@ -127,3 +127,15 @@ def scope_creation_contract(resolver, kind, name):
     if kind == "named":
         check("name_recorded", new.name == name)
     check("current_scope_and_cursor_unchanged", resolver.current_scope is cur and resolver.last_used_scope == cursor)
+
+
+def value_for_chain_contract(inner, value, depth):
+    """A name defined `depth` scopes further out is found from the innermost scope whatever the scopes in between hold -- in particular when they hold
+    NOTHING (a bare `{ }` block, the scope of a macro without parameters, a loop iteration before its variable is bound); an unknown name is SymbolNotDefined."""
+    check("found_through_empty_scopes", inner.value_for("n") == value)
+    raised = False
+    try:
+        inner.value_for("missing")
+    except SymbolNotDefined:
+        raised = True
+    check("unknown_name_is_undefined", raised)
